@@ -37,8 +37,9 @@ class ToolError(Exception):
     pass
 
 
-def known_keys():
-    """Keys of the listed known findings (KNOWN_FINDINGS.txt, never written at run time)."""
+def known_keys(focus="ALL"):
+    """Keys of the listed known findings (KNOWN_FINDINGS.txt, never written at run time);
+    for a single-property run only the findings listed for that property."""
     keys = []
     path = os.path.join(VERIF, "KNOWN_FINDINGS.txt")
     if os.path.exists(path):
@@ -46,9 +47,10 @@ def known_keys():
             ln = ln.strip()
             if ln.startswith("known:"):
                 m = re.search(r"key=(\S+)", ln)
-                if m:
+                pm = re.search(r"property=(\S+)", ln)
+                if m and (focus == "ALL" or (pm and pm.group(1) == focus)):
                     keys.append(m.group(1))
-    return keys
+    return sorted(set(keys))
 
 
 def known_entries():
@@ -68,7 +70,7 @@ def known_entries():
     return out
 
 
-def prepare_dir(name):
+def prepare_dir(name, focus="ALL"):
     d = os.path.join(WORK, name)
     if os.path.isdir(d):
         shutil.rmtree(d, ignore_errors=True)
@@ -77,7 +79,7 @@ def prepare_dir(name):
         if f.endswith(".tla") or f.endswith(".cfg"):
             shutil.copy(os.path.join(SPEC, f), os.path.join(d, f))
     with open(os.path.join(d, "known.json"), "w") as fh:
-        json.dump(known_keys(), fh)
+        json.dump(known_keys(focus), fh)
     return d
 
 
@@ -144,7 +146,7 @@ def validate(name, sessions, focus="ALL", jobs=12, chunk_events=1500, timeout=90
     """sessions: list of lists of records; each session starts with a cfg record (and is
     independent of the others: the driver was reset before it).  Returns a dict with
     verdicts [(session, index_in_session, prop, tag, outcome)], knowns, per-outcome counts."""
-    workdir = prepare_dir(name)
+    workdir = prepare_dir(name, focus)
     chunks, cur, cur_map = [], [], []
     maps = []
     for si, s in enumerate(sessions):
